@@ -12,3 +12,5 @@ import LA.Props.C09
 import LA.Props.C09Filters
 import LA.Props.C11
 import LA.Props.C03
+import LA.Props.C02
+import LA.Props.C10
